@@ -210,6 +210,10 @@ func (x *Exec) libModel(st *State, in ssa.Instruction, callee *ssa.Function, nam
 		x.pathDone()
 		return true
 	case "sort.Sort", "sort.Stable", "sort.Slice", "sort.SliceStable":
+		if len(args) >= 1 && x.sortModel(st, args[0]) {
+			k(st, nil)
+			return true
+		}
 		x.note("sort: element arrays of the argument havocked (assumed: result is a permutation)")
 		for _, a := range args {
 			x.havocReachable(st, a)
@@ -295,4 +299,63 @@ func (x *Exec) syncMapDelete(st *State, m, key *Value) {
 	mref, kt := x.syncMapRefKey(st, m, key)
 	d := x.heapArr(st, "MD|sync.Map", "Bool")
 	x.setHeapArr(st, "MD|sync.Map", "Bool", fmt.Sprintf("(store %s %s (store (select %s %s) %s false))", d, mref, d, mref, kt))
+}
+
+// sortModel: sorting a slice permutes the elements of its window [off, off+len) of the backing array and changes
+// nothing else. For the two comparators of package types the order is known as well (their Less methods are under
+// contract, so the order assumed here is the order the code implements).
+func (x *Exec) sortModel(st *State, a *Value) bool {
+	sv := a
+	if a.K == KIface {
+		bv, ok := st.boxes[a.Fs[1].Term]
+		if !ok {
+			return false
+		}
+		sv = bv
+	}
+	if sv.K != KSlice || sv.T == nil {
+		return false
+	}
+	slt, ok := sv.T.Underlying().(*types.Slice)
+	if !ok {
+		return false
+	}
+	et := slt.Elem()
+	arr, off, ln := sv.Fs[0].Term, sv.Fs[1].Term, sv.Fs[2].Term
+	x.nfresh++
+	perm := fmt.Sprintf("perm!%d", x.nfresh)
+	inv := fmt.Sprintf("pinv!%d", x.nfresh)
+	st.decls = append(st.decls, fmt.Sprintf("(declare-fun %s (Int) Int)", perm), fmt.Sprintf("(declare-fun %s (Int) Int)", inv))
+	st.assume(fmt.Sprintf("(forall ((k Int)) (! (=> (and (<= 0 k) (< k %s)) (and (<= 0 (%s k)) (< (%s k) %s) (= (%s (%s k)) k))) :pattern ((%s k))))", ln, perm, perm, ln, inv, perm, perm))
+	st.assume(fmt.Sprintf("(forall ((k Int)) (! (=> (and (<= 0 k) (< k %s)) (and (<= 0 (%s k)) (< (%s k) %s) (= (%s (%s k)) k))) :pattern ((%s k))))", ln, inv, inv, ln, perm, inv, inv))
+	var newRows []string
+	for _, l := range leaves(et) {
+		key := "E|" + typeKey(et) + "|" + l.Path
+		x.arrSort[key] = l.Sort
+		old := x.heapArr(st, key, l.Sort)
+		row := x.fresh(st, "sorted", fmt.Sprintf("(Array Int %s)", l.Sort))
+		newRows = append(newRows, row)
+		st.assume(fmt.Sprintf("(forall ((k Int)) (! (=> (or (< k %s) (>= k (+ %s %s))) (= (select %s k) (select (select %s %s) k))) :pattern ((select %s k))))", off, off, ln, row, old, arr, row))
+		st.assume(fmt.Sprintf("(forall ((k Int)) (! (=> (and (<= 0 k) (< k %s)) (= (select %s (sidx %s k)) (select (select %s %s) (sidx %s (%s k))))) :pattern ((select %s (sidx %s k)))))", ln, row, off, old, arr, off, perm, row, off))
+		x.setHeapArr(st, key, l.Sort, fmt.Sprintf("(store %s %s %s)", old, arr, row))
+	}
+	// known orders
+	if n, ok := sv.T.(*types.Named); ok && n.Obj().Pkg() != nil && n.Obj().Pkg().Path() == modulePath+"/types" && len(newRows) == 1 {
+		vt := et
+		if pt, ok := et.Underlying().(*types.Pointer); ok {
+			vt = pt.Elem()
+		}
+		addr := x.heapArr(st, "F|"+typeKey(vt)+"|Address", "Int")
+		pow := x.heapArr(st, "F|"+typeKey(vt)+"|VotingPower", "Int")
+		row := newRows[0]
+		ej := fmt.Sprintf("(select %s (sidx %s j))", row, off)
+		ek := fmt.Sprintf("(select %s (sidx %s k))", row, off)
+		switch n.Obj().Name() {
+		case "ValidatorsByAddress":
+			st.assume(fmt.Sprintf("(forall ((j Int) (k Int)) (! (=> (and (<= 0 j) (< j k) (< k %s)) (<= (bcmp (select %s %s) (select %s %s)) 0)) :pattern (%s %s)))", ln, addr, ej, addr, ek, ej, ek))
+		case "ValidatorsByVotingPower":
+			st.assume(fmt.Sprintf("(forall ((j Int) (k Int)) (! (=> (and (<= 0 j) (< j k) (< k %s)) (or (> (select %s %s) (select %s %s)) (and (= (select %s %s) (select %s %s)) (<= (bcmp (select %s %s) (select %s %s)) 0)))) :pattern (%s %s)))", ln, pow, ej, pow, ek, pow, ej, pow, ek, addr, ej, addr, ek, ej, ek))
+		}
+	}
+	return true
 }
